@@ -38,6 +38,7 @@ type Sorts struct {
 	implOrder []string
 	anon      int
 	prog      *Program
+	needSolid bool
 }
 
 type structInfo struct {
@@ -406,6 +407,16 @@ func (s *Sorts) prelude() string {
 	z := s.intConst(0, 64)
 	b.WriteString("(declare-const str_empty Str)\n(assert (= (str_len str_empty) " + z + "))\n")
 	b.WriteString("(define-fun slice_nil () Slice (mk_slice 0 " + z + " " + z + " " + z + "))\n")
+	// iface_solid: the interface value is not nil and does not hold a nil pointer
+	if s.needSolid {
+		b.WriteString("(define-fun iface_solid ((v Iface)) Bool (and (not ((_ is iface_nil) v))")
+		for _, c := range s.consList {
+			if _, ok := c.t.Underlying().(*types.Pointer); ok {
+				fmt.Fprintf(&b, " (=> ((_ is %s) v) (not (= (%s v) 0)))", c.name, c.sel)
+			}
+		}
+		b.WriteString("))\n")
+	}
 	// implements predicates
 	sort.Strings(s.implOrder)
 	for _, name := range s.implOrder {
